@@ -4,7 +4,7 @@ The program is built twice from reset name counters (same names, same store
 keys).  Reference execution: canonical order, atomic, no repetition.
 Adversarial execution: seeded permutation of every operation's tasks (pool
 timing), failed attempts *after* the body wrote (so the retry runs the body
-again), stragglers with backup twins, zombie re-executions placed immediately,
+again), transient storage errors in the middle of a body (the retry re-reads), stragglers with backup twins, zombie re-executions placed immediately,
 after the operation's end and after downstream operations started, tasks
 shipped through cloudpickle (processes path).  Oracle: the durable bytes of
 every key in the store and the final results are equal between the two
@@ -76,6 +76,10 @@ def generate(tp: Tape, tier: str):
         straggle_num=tp.choice([0, 4, 8]) if use_backups else 0,
     )
     case["fail_after_write_num"] = tp.choice([0, 0, 1, 3]) if kind == "threads" else 0
+    # F5 inside a task: a transient storage error on one read or write in the middle of the body (at most one per
+    # submission, so the executor's retry budget always suffices): the retry re-executes a body that had already
+    # read - and possibly written - part of its data
+    case["io_fault_num"] = tp.choice([0, 0, 2, 6]) if kind == "threads" else 0
     case["opt"] = tp.choice([dict(kind="off"), dict(kind="default"), dict(kind="default")])
     # placement: some runs execute (some of) their task bodies in fresh interpreters, from the serialized form
     if tp.coin(*PLACE_ODDS.get(tier, (1, 8))):
@@ -113,6 +117,38 @@ def fail_after_body(sim, num):
         crl.run_func_threads = orig
 
 
+@contextlib.contextmanager
+def transient_io_faults(rr, num):
+    """One injected error per submission at most, on a data-key get/set chosen from the tape."""
+    from sim.store import InjectedIOError
+
+    if not num:
+        yield
+        return
+    sim = rr.sim
+    hit = set()
+
+    def hook(store, op, key):
+        job = sim.current_job
+        if job is None or job.zombie_of is not None or op not in ("get", "set") or not is_data_key(key):
+            return
+        if job.jid in hit:
+            return
+        if sim.tape.coin(num, 64):
+            hit.add(job.jid)
+            sim.count("transient_io_fault_in_task")
+            sim.emit("FAULT", op, key, store.sh.current_job)
+            raise InjectedIOError(f"injected storage fault on {op} {key}")
+
+    for st in (rr.store, rr.src_store):
+        st.sh.fault_hook = hook
+    try:
+        yield
+    finally:
+        for st in (rr.store, rr.src_store):
+            st.sh.fault_hook = None
+
+
 def execute(case, sched=None):
     violations = []
     # ---- reference ---------------------------------------------------------------
@@ -139,7 +175,8 @@ def execute(case, sched=None):
 
                 pl = rr.sim.placement = Placement(rr.sim, **case["place"])
             try:
-                with fail_after_body(rr.sim, case.get("fail_after_write_num", 0)):
+                with fail_after_body(rr.sim, case.get("fail_after_write_num", 0)), \
+                        transient_io_faults(rr, case.get("io_fault_num", 0)):
                     rr.results, rr.phase, rr.exc = PR.compute(rr)
             finally:
                 if pl is not None:
@@ -201,7 +238,8 @@ def execute(case, sched=None):
             bodies[key] = bodies.get(key, 0) + 1
     completes = [e[3] for e in sim.events if e[2] == "complete"]
     order_swapped = int(completes != sorted(completes))
-    repeated = sum(1 for v in bodies.values() if v > 1) + sim.counters.get("injected_failure_after_write", 0)
+    repeated = (sum(1 for v in bodies.values() if v > 1) + sim.counters.get("injected_failure_after_write", 0)
+                + sim.counters.get("transient_io_fault_in_task", 0))
     counters = c01.run_counters(rr, case)
     counters["tasks_executed_more_than_once"] = repeated
     counters["runs_with_repetition"] = int(repeated > 0)
@@ -247,10 +285,11 @@ def shrink(case):
             c = copy.deepcopy(case)
             c["sim"][key] = val
             yield c
-    if case.get("fail_after_write_num"):
-        c = copy.deepcopy(case)
-        c["fail_after_write_num"] = 0
-        yield c
+    for key in ("fail_after_write_num", "io_fault_num"):
+        if case.get(key):
+            c = copy.deepcopy(case)
+            c[key] = 0
+            yield c
 
 
 def known(case, violation):
